@@ -39,6 +39,8 @@ type Case struct {
 	Cmds      []Cmd `json:"cmds"`
 	After     []Cmd `json:"after,omitempty"`
 	Allow     bool  `json:"allow"`
+	NVar      int   `json:"nvar,omitempty"`    // variations of the task (0 = none)
+	OverAt    int   `json:"over_at,omitempty"` // the variation in which over-runners over-run (they are instant in the others)
 }
 
 func (c Case) canon() string { b, _ := json.Marshal(c); return string(b) }
@@ -46,7 +48,20 @@ func (c Case) canon() string { b, _ := json.Marshal(c); return string(b) }
 func over(k string) bool { return k == "sleep" || k == "busy" || k == "ignore" }
 
 func text(c Cmd, id string, tmo int, log, pids string) string {
-	s := fmt.Sprintf("printf 'S:%s\\n' >> %s; ", id, log)
+	return textVar(c, id, tmo, log, pids, -1)
+}
+
+// textVar: with overAt >= 0 the command is a command of a task with variations (V=v0, v1, ...): its
+// markers carry $V and an over-runner over-runs in variation overAt only.
+func textVar(c Cmd, id string, tmo int, log, pids string, overAt int) string {
+	if overAt >= 0 {
+		id += "@$V"
+	}
+	s := fmt.Sprintf("printf 'S:%%s\\n' \"%s\" >> %s; ", id, log)
+	if overAt >= 0 && over(c.Kind) {
+		s += fmt.Sprintf("if [ \"$V\" = \"v%d\" ]; then ", overAt)
+		defer func() {}()
+	}
 	switch c.Kind {
 	case "part":
 		ms := tmo * 6 / 10
@@ -58,7 +73,10 @@ func text(c Cmd, id string, tmo int, log, pids string) string {
 	case "ignore":
 		s += fmt.Sprintf("sh -c 'trap \"\" INT; echo $$ >> %s; exec sleep 30'; ", pids)
 	}
-	return s + fmt.Sprintf("printf 'E:%s\\n' >> %s", id, log)
+	if overAt >= 0 && over(c.Kind) {
+		s += "fi; "
+	}
+	return s + fmt.Sprintf("printf 'E:%%s\\n' \"%s\" >> %s", id, log)
 }
 
 type expect struct {
@@ -66,7 +84,7 @@ type expect struct {
 	failed  bool // Run returns an error
 	errored bool
 	// time the run may take at most
-	budget time.Duration
+	budget    time.Duration
 	graceKill bool
 }
 
@@ -101,7 +119,23 @@ func model(c Case) expect {
 		e.failed = true
 		return e
 	}
-	if run("c", c.Cmds) {
+	if c.NVar > 0 {
+		for v := 0; v < c.NVar; v++ {
+			for i, cm := range c.Cmds {
+				id := fmt.Sprintf("c%d@v%d", i, v)
+				e.tokens = append(e.tokens, "S:"+id)
+				if over(cm.Kind) && v == c.OverAt {
+					e.budget += cost(cm.Kind)
+					e.failed, e.errored = true, true
+					return e
+				}
+				if !over(cm.Kind) {
+					e.budget += cost(cm.Kind)
+				}
+				e.tokens = append(e.tokens, "E:"+id)
+			}
+		}
+	} else if run("c", c.Cmds) {
 		e.failed, e.errored = true, true
 		return e
 	}
@@ -136,7 +170,14 @@ func runCase(c Case, root string, scale int) (err error, timing bool) {
 		tk.Before = append(tk.Before, text(cm, fmt.Sprint("b", i), c.TimeoutMs, log, pids))
 	}
 	for i, cm := range c.Cmds {
-		tk.Commands = append(tk.Commands, text(cm, fmt.Sprint("c", i), c.TimeoutMs, log, pids))
+		if c.NVar > 0 {
+			tk.Commands = append(tk.Commands, textVar(cm, fmt.Sprint("c", i), c.TimeoutMs, log, pids, c.OverAt))
+		} else {
+			tk.Commands = append(tk.Commands, text(cm, fmt.Sprint("c", i), c.TimeoutMs, log, pids))
+		}
+	}
+	for v := 0; v < c.NVar; v++ {
+		tk.Variations = append(tk.Variations, map[string]string{"V": fmt.Sprintf("v%d", v)})
 	}
 	for i, cm := range c.After {
 		tk.After = append(tk.After, text(cm, fmt.Sprint("a", i), c.TimeoutMs, log, pids))
@@ -298,6 +339,10 @@ func TestRandom(t *testing.T) {
 		c.Before = genCmds(rt, "b", 0, 1, where == 0)
 		c.Cmds = genCmds(rt, "c", 1, 4, where >= 2)
 		c.After = genCmds(rt, "a", 0, 2, where == 1)
+		if rapid.IntRange(0, 2).Draw(rt, "with-variations") == 0 {
+			c.NVar = rapid.IntRange(2, 3).Draw(rt, "nvar")
+			c.OverAt = rapid.IntRange(0, c.NVar-1).Draw(rt, "over-at")
+		}
 		drv.Sample(c)
 		decide(rt, "random", c, root)
 	})
@@ -328,6 +373,12 @@ func TestMatrix(t *testing.T) {
 		cases = append(cases, Case{TimeoutMs: 300, Before: []Cmd{{kind}}, Cmds: []Cmd{{"instant"}}})
 		cases = append(cases, Case{TimeoutMs: 300, Cmds: []Cmd{{"instant"}}, After: []Cmd{{kind}}})
 		cases = append(cases, Case{TimeoutMs: 300, Allow: true, Cmds: []Cmd{{"instant"}}, After: []Cmd{{kind}, {"instant"}}})
+	}
+	// variations: the over-runner over-runs only in the first / a later variation
+	for _, kind := range []string{"sleep", "busy"} {
+		for overAt := 0; overAt < 3; overAt++ {
+			cases = append(cases, Case{TimeoutMs: 300, NVar: 3, OverAt: overAt, Cmds: []Cmd{{"instant"}, {kind}}})
+		}
 	}
 	for n := 2; n <= 4; n++ {
 		c := Case{TimeoutMs: 500}
